@@ -1056,6 +1056,7 @@ impl Prop for ReaderProp {
                 out.push(c);
             }
         }
+        out.retain(|c| c.src.live());
         out
     }
 
